@@ -274,7 +274,13 @@ xer_decode_general(const asn_codec_ctx_t *opt_codec_ctx,
 		 */
 		switch(tcv) {
 		case XCT_BOTH:
-			if(ctx->phase) break;
+			if(ctx->phase) {
+				/*
+				 * A value tag named like the element itself:
+				 * <true><true/></true>
+				 */
+				goto unknown_bo;
+			}
 			/* Finished decoding of an empty element */
 			XER_GOT_EMPTY();
 			ADVANCE(ch_size);
@@ -291,6 +297,7 @@ xer_decode_general(const asn_codec_ctx_t *opt_codec_ctx,
 			ctx->phase = 2;	/* Phase out */
 			RETURN(RC_OK);
 		case XCT_UNKNOWN_BO:
+		unknown_bo:
 			/*
 			 * Certain tags in the body may be expected.
 			 */
